@@ -103,7 +103,16 @@ func CheckWire(tap *Tap, wire, c2s string, alive bool, w *World) {
 				fail("client-header-changed", "id %d: header fields changed mid-stream: %s", s.id, describe(r))
 			}
 			if s.cResets > 0 {
-				fail("client-after-reset", "id %d: client envelope after its reset: %s", s.id, describe(r))
+				what := "open"
+				switch {
+				case r.Reset_ != nil:
+					what = "second-reset"
+				case r.Trailer != nil:
+					what = "trailer"
+				case r.Body != nil:
+					what = "body"
+				}
+				fail("client-"+what+"-after-reset", "id %d: client envelope after its (final) reset: %s", s.id, describe(r))
 			}
 			switch {
 			case r.Reset_ != nil:
